@@ -115,7 +115,7 @@ PROPS = {
     ),
     'C20': dict(
         level='proof',
-        contracts=['C20'],
+        contracts=['C20', 'wsgi'],
         frames=['codec_lemma', 'error_sites'],
         technique='deductive: dataflow VCs from the real AST of error_render.render and Ombott.default_error_handler (the URL reaches '
                   'the template context only as repr(html.escape(url)); debug-only fields are constants otherwise); complete per-code-point '
@@ -164,7 +164,7 @@ PROPS = {
         trusted_base=['urllib.parse.unquote total', 'uniqueness of the decomposition of a string into &-segments (meta-argument)'],
     ),
     'C03': dict(
-        level='other', contracts=['C03'], frames=[],
+        level='other', contracts=['C03', 'wsgi'], frames=[],
         technique='bounded run-time contract check: independent PEP 3333 validator as postcondition of Ombott.__call__ over an enumerated '
                   'space of handler programs x methods x statuses x hook configurations',
         explanation='BOUNDED: exhaustive product of handler programs; see coverage.bounded.',
@@ -183,7 +183,7 @@ PROPS = {
         level_note='Preemption bound and request kinds are stated in coverage.bounded.bound; threading.local semantics and CPython atomicity of single container operations assumed.',
     ),
     'C09': dict(
-        level='other', contracts=['C14', 'C03', 'C12'], frames=[],
+        level='other', contracts=['C14', 'C03', 'C12', 'wsgi'], frames=[],
         technique='bounded run-time contract check of request histories against a fresh application + weak-reference retention count; '
                   'VC on BaseResponse.__init__ (reset completeness)',
         explanation='BOUNDED histories; reset completeness of the response object proved (BaseResponse.__init__).',
